@@ -17,9 +17,9 @@ func init() {
 		Explanation: "Scan, guard and ordering rules over slice.go/find.go/math.go/generic.go/range.go (engines E4/E6/E3): PT5 IndexOf/FindIndex/Contains/Some/Every are complete forward scans and LastIndexOf/FindLastIndex complete backward scans of their slice whose match edge returns the index (resp. the boolean) at once and whose default result is returned only through the loop's exit; " +
 			"FindAll stores (index, element) of the same iteration under the predicate; the extremum functions seed the accumulator with s[0] only under len > 0 (PT6, zero value otherwise), scan forward, update on a strict comparison in the direction their name promises with the element just read, and return the accumulator (PV1); " +
 			"the ByKey variants read a map value only under the comma-ok presence test of the same map and key; Sum/SumBy/Mean add each element exactly once in a complete scan; OD2 Clamp, InRange, Abs, Compare, Less and Equal are comparison-only and their decision tables over every order type of the arguments equal the defining inequalities; " +
-			"GS1/GS2 the helpers use no mutable package-level state and start no goroutines. Range: everything it decides before its first iteration (rejection, which loop, start, end, amount moved) is a function of the order type of its arguments and is tabulated over representatives in [-3,3] against the definition (OD2); the loops append one value derived from the counter per iteration, unconditionally, and RangeRight passes the arguments and the error through and reverses (AG5/ER2/PV1). Nth's index arithmetic and numeric values (overflow, float rounding through NumToString/N) are not decided.",
+			"GS1/GS2 the helpers use no mutable package-level state and start no goroutines. Range: everything it decides before its first iteration (rejection, which loop, start, end, amount moved) is a function of the order type of its arguments and is tabulated over representatives in [-3,3] (half units) against the definition (OD2); the loops append one value derived from the counter per iteration, unconditionally, and RangeRight passes the arguments and the error through and reverses (AG5/ER2/PV1). BD2 Nth: premise (loop-free, integers combined by + - and comparisons, forms a*len+b*nth+c with small coefficients at every comparison and index) decided on the SSA of Nth, Abs and Bound.Enclose; under it the outcome (element index, error, out-of-range index) is tabulated over len 0..8 x nth -11..11 against s[nth] / s[len+nth] / error and never a panic. The OD2 and Range tables run in half units (functions generic over floats). Numeric values (overflow, float rounding through NumToString/N) are not decided.",
 		Assumptions: []string{"go/ssa faithful to the source", "user callbacks are pure"},
-		NotDecided:  []string{"Nth (relational index arithmetic: Nth(empty, 0) panics, visible only by running)", "numeric values of Range's elements (overflow; floats pass through NumToString/N)", "numeric values of Sum/Mean (overflow, rounding)"},
+		NotDecided:  []string{"integer overflow of -nth / len-|nth| in Nth at the extremes of int", "numeric values of Range's elements (overflow; floats pass through NumToString/N)", "numeric values of Sum/Mean (overflow, rounding)"},
 		Run:         runC13,
 	})
 }
@@ -29,6 +29,7 @@ func runC13(p *core.Program, r *core.Report) {
 	c := rc{p, r}
 	hygiene(c, "find.go", "math.go", "generic.go", "range.go")
 	checkRange(c)
+	checkNth(c)
 
 	// ---------------- PT5 scans with first match
 	type scanSpec struct {
